@@ -213,6 +213,14 @@ class Adj:
             return ("seq", [pre, ("alt", alts)])
         if k in ("for", "while", "loop"):
             pre = self._node(n.get("iter_tree") or n.get("cond_tree"), rel, fn, sinks)
+            stmts = n["body"].get("stmts") or []
+            # idiom "separator before all but the first element": `if i > 0 { write!(sep) }` as first statement
+            if k == "for" and stmts and stmts[0].get("k") == "if" and not stmts[0].get("else") and \
+                    re.match(r"^\w+\s*>\s*0$", (stmts[0].get("cond") or "").strip()) and \
+                    re.search(r"\b%s\b" % re.escape(stmts[0]["cond"].split(">")[0].strip()), n.get("pat") or ""):
+                sep = self._node(stmts[0]["then"], rel, fn, sinks)
+                rest = ("seq", [self._node(x, rel, fn, sinks) for x in stmts[1:]])
+                return ("seq", [pre, ("seploop", sep, rest)])
             return ("seq", [pre, ("loop", self._node(n["body"], rel, fn, sinks))])
         if k in ("return",):
             return ("seq", [self._node(n.get("e"), rel, fn, sinks), ("diverge",)])
@@ -315,6 +323,18 @@ class Adj:
                 self.violations.append(("adjacent", ctxname, self._where(tree[1]),
                                         "consecutive iterations emit a regular byte directly after a regular byte (no separator between repetitions)"))
             return Sum(s.first, s.last, True)
+        if k == "seploop":
+            sep = self.eval(tree[1], ctxname) or EMPTY
+            rest = self.eval(tree[2], ctxname) or EMPTY
+            # element, separator, element, ...
+            if self.recording:
+                if "R" in rest.last and "R" in sep.first:
+                    self.violations.append(("adjacent", ctxname, self._where(tree[2]), "an element may end in a regular byte and the separator begins with one"))
+                if "R" in sep.last and "R" in rest.first:
+                    self.violations.append(("adjacent", ctxname, self._where(tree[1]), "the separator ends in a regular byte and the next element may begin with one"))
+                if sep.nullable and "R" in rest.last and "R" in rest.first:
+                    self.violations.append(("adjacent", ctxname, self._where(tree[2]), "elements are not separated"))
+            return Sum(rest.first, rest.last, True)
         if k == "lit":
             self._vocab(tree[1], tree[2], ctxname)
             return self.lit_sum(tree[1])
@@ -406,6 +426,8 @@ class Adj:
                 out += self._callees(x)
         elif tree[0] == "loop":
             out += self._callees(tree[1])
+        elif tree[0] == "seploop":
+            out += self._callees(tree[1]) + self._callees(tree[2])
         return out
 
     def solve(self, roots):
@@ -454,7 +476,7 @@ class Adj:
         for p in fn["params"]:
             if "Write" in p or "Formatter" in p or "& mut String" in p or "& mut Vec < u8 >" in p:
                 out.add(p.split(":")[0].strip().replace("mut ", "").replace(" ", ""))
-        out |= {"self.backend", "&mutself.backend", "buf", "&mutbuf"}
+        out |= {"self.backend", "buf", "f", "out", "w"}
         return out
 
 
